@@ -890,6 +890,31 @@ fn run_top(world: &mut World, t: usize, op: &STop)
                 None => top_acts(world, t, vec![]),
             }
         }
+        STop::SigDropRace(a) =>
+        {
+            // the handle and a fresh clone of it are dropped by two threads released by one spin gate: if the handle
+            // was the last one, the last two holders disappear at (nearly) the same instant. Net effect: one drop.
+            let popped = SH.with(|s| { let mut s = s.borrow_mut(); match s.sigs.get_mut(*a) { Some(v) => Some(v.pop()), None => None } });
+            match popped
+            {
+                Some(Some(x)) =>
+                {
+                    use std::sync::atomic::{AtomicUsize, Ordering};
+                    let y = x.clone();
+                    let gate = Arc::new(AtomicUsize::new(0));
+                    let hs: Vec<_> = [x, y].into_iter().map(|h| { let g = gate.clone(); std::thread::spawn(move || {
+                        g.fetch_add(1, Ordering::SeqCst);
+                        while g.load(Ordering::Acquire) < 3 { std::hint::spin_loop(); }
+                        drop(h);
+                    }) }).collect();
+                    while gate.load(Ordering::Acquire) < 2 { std::hint::spin_loop(); }
+                    gate.store(3, Ordering::Release);
+                    for h in hs { let _ = h.join(); }
+                }
+                Some(None) => {}
+                None => top_acts(world, t, vec![]),
+            }
+        }
         STop::SigDrop(a) =>
         {
             let popped = SH.with(|s| { let mut s = s.borrow_mut(); match s.sigs.get_mut(*a) { Some(v) => Some(v.pop()), None => None } });
